@@ -352,66 +352,7 @@ func runC09(c *eng.Ctx) {
 		// true is returned only when all three limits are zero
 		c.Check(returnsTrueOnlyWhenAllZero(fn), "no-limits test covers all three limits", p.Pos(fn.Pos()), "Bytes == 0 && Messages == 0 && Age == 0", "noRetentionLimits can report true although a limit is configured: that limit is never enforced")
 	}
-	// segments rolled while the cleaner ran are kept
-	if fn := c.Fn(cl + "(*commitLog).Clean"); fn != nil {
-		segF := p.Field(clPkg, "commitLog", "segments")
-		rb := eng.CallsIn(fn, cl+"commitLog.rebaseSegments")
-		more := eng.CmpEdges(fn, eng.Len(eng.Load(segF, nil)), eng.Len(eng.Load(segF, nil)), eng.GT)
-		okRb := len(rb) == 1 && len(more) > 0 && exactRel(fn, eng.Len(eng.Load(segF, nil)), eng.Len(eng.Load(segF, nil)), eng.GT)
-		pos := p.Pos(fn.Pos())
-		if len(rb) == 1 {
-			pos = c.Pos(rb[0].(ssa.Instruction))
-			g, _ := eng.GuardedBy(fn, rb[0].(ssa.Instruction), more)
-			sl, isSl := rb[0].Common().Args[1].(*ssa.Slice)
-			okRb = okRb && g && isSl && sl.High == nil && sl.Low != nil && eng.Len(eng.Load(segF, nil))(sl.Low) && eng.Load(segF, nil)(sl.X)
-			// the swapped-in list is the rebased one on that path
-			okStore := false
-			for _, st := range eng.FieldStores(fn, func(fa *ssa.FieldAddr) bool { return fieldIs(fa, segF) }) {
-				if phi, ok := st.Val.(*ssa.Phi); ok {
-					for _, e := range phi.Edges {
-						if e == rb[0].Value() {
-							okStore = true
-						}
-					}
-				} else if st.Val == rb[0].Value() {
-					okStore = true
-				}
-			}
-			okRb = okRb && okStore
-			// ... and on every path on which more segments exist: nothing else (compaction ran or not) may decide it
-			q := &eng.PathQuery{Fn: fn, FromEdges: more, Target: func(x ssa.Instruction) bool {
-				st, isSt := x.(*ssa.Store)
-				if !isSt {
-					return false
-				}
-				fa, isFA := st.Addr.(*ssa.FieldAddr)
-				return isFA && fieldIs(fa, segF)
-			}, CutInstr: func(x ssa.Instruction) bool { return x == rb[0].(ssa.Instruction) }}
-			if w := q.Find(); w != nil {
-				okRb = false
-			}
-			// the comparison is made on every path to the swap (it is not skipped when, say, no compaction ran)
-			notMore := eng.CmpEdges(fn, eng.Len(eng.Load(segF, nil)), eng.Len(eng.Load(segF, nil)), eng.LE)
-			for _, st := range eng.FieldStores(fn, func(fa *ssa.FieldAddr) bool { return fieldIs(fa, segF) }) {
-				if g, _ := eng.GuardedBy(fn, st, append(append([]eng.Edge{}, more...), notMore...)); !g {
-					okRb = false
-				}
-			}
-		}
-		// rebaseSegments itself appends the new segments to the cleaned ones
-		if rf := c.FnQuiet(cl + "(*commitLog).rebaseSegments"); rf != nil {
-			okApp := false
-			for _, r := range eng.Returns(rf) {
-				if ac := eng.AsCall(eng.RetVals(r)[0]); ac != nil {
-					if b, isB := ac.Call.Value.(*ssa.Builtin); isB && b.Name() == "append" && eng.Param("to")(ac.Call.Args[0]) && eng.Param("from")(ac.Call.Args[1]) {
-						okApp = true
-					}
-				}
-			}
-			okRb = okRb && okApp
-		}
-		c.Check(okRb, "segments rolled during a clean survive the swap", pos, "l.segments = rebaseSegments(new[len(old):], cleaned) exactly when len(new) > len(old)", "commitLog.Clean swaps in the cleaned list without re-attaching (exactly) the segments that were rolled while the cleaner ran: a segment appended during a clean is lost or duplicated")
-	}
+	ruleCleanSwap(c)
 	c.Floor(10)
 }
 
@@ -598,4 +539,70 @@ func sliceFromLast(v ssa.Value) bool {
 		return false
 	}
 	return walk(v)
+}
+
+// ruleCleanSwap (part of R09.7, shared with C08): segments rolled while the cleaner (retention or compaction) ran are
+// re-attached to the cleaned list, exactly those, on every path.
+func ruleCleanSwap(c *eng.Ctx) {
+	p := c.P
+	// segments rolled while the cleaner ran are kept
+	if fn := c.Fn(cl + "(*commitLog).Clean"); fn != nil {
+		segF := p.Field(clPkg, "commitLog", "segments")
+		rb := eng.CallsIn(fn, cl+"commitLog.rebaseSegments")
+		more := eng.CmpEdges(fn, eng.Len(eng.Load(segF, nil)), eng.Len(eng.Load(segF, nil)), eng.GT)
+		okRb := len(rb) == 1 && len(more) > 0 && exactRel(fn, eng.Len(eng.Load(segF, nil)), eng.Len(eng.Load(segF, nil)), eng.GT)
+		pos := p.Pos(fn.Pos())
+		if len(rb) == 1 {
+			pos = c.Pos(rb[0].(ssa.Instruction))
+			g, _ := eng.GuardedBy(fn, rb[0].(ssa.Instruction), more)
+			sl, isSl := rb[0].Common().Args[1].(*ssa.Slice)
+			okRb = okRb && g && isSl && sl.High == nil && sl.Low != nil && eng.Len(eng.Load(segF, nil))(sl.Low) && eng.Load(segF, nil)(sl.X)
+			// the swapped-in list is the rebased one on that path
+			okStore := false
+			for _, st := range eng.FieldStores(fn, func(fa *ssa.FieldAddr) bool { return fieldIs(fa, segF) }) {
+				if phi, ok := st.Val.(*ssa.Phi); ok {
+					for _, e := range phi.Edges {
+						if e == rb[0].Value() {
+							okStore = true
+						}
+					}
+				} else if st.Val == rb[0].Value() {
+					okStore = true
+				}
+			}
+			okRb = okRb && okStore
+			// ... and on every path on which more segments exist: nothing else (compaction ran or not) may decide it
+			q := &eng.PathQuery{Fn: fn, FromEdges: more, Target: func(x ssa.Instruction) bool {
+				st, isSt := x.(*ssa.Store)
+				if !isSt {
+					return false
+				}
+				fa, isFA := st.Addr.(*ssa.FieldAddr)
+				return isFA && fieldIs(fa, segF)
+			}, CutInstr: func(x ssa.Instruction) bool { return x == rb[0].(ssa.Instruction) }}
+			if w := q.Find(); w != nil {
+				okRb = false
+			}
+			// the comparison is made on every path to the swap (it is not skipped when, say, no compaction ran)
+			notMore := eng.CmpEdges(fn, eng.Len(eng.Load(segF, nil)), eng.Len(eng.Load(segF, nil)), eng.LE)
+			for _, st := range eng.FieldStores(fn, func(fa *ssa.FieldAddr) bool { return fieldIs(fa, segF) }) {
+				if g, _ := eng.GuardedBy(fn, st, append(append([]eng.Edge{}, more...), notMore...)); !g {
+					okRb = false
+				}
+			}
+		}
+		// rebaseSegments itself appends the new segments to the cleaned ones
+		if rf := c.FnQuiet(cl + "(*commitLog).rebaseSegments"); rf != nil {
+			okApp := false
+			for _, r := range eng.Returns(rf) {
+				if ac := eng.AsCall(eng.RetVals(r)[0]); ac != nil {
+					if b, isB := ac.Call.Value.(*ssa.Builtin); isB && b.Name() == "append" && eng.Param("to")(ac.Call.Args[0]) && eng.Param("from")(ac.Call.Args[1]) {
+						okApp = true
+					}
+				}
+			}
+			okRb = okRb && okApp
+		}
+		c.Check(okRb, "segments rolled during a clean survive the swap", pos, "l.segments = rebaseSegments(new[len(old):], cleaned) exactly when len(new) > len(old)", "commitLog.Clean swaps in the cleaned list without re-attaching (exactly) the segments that were rolled while the cleaner ran: a segment appended during a clean is lost or duplicated")
+	}
 }
